@@ -1,0 +1,59 @@
+//go:build verif
+
+package main
+
+import (
+	"fmt"
+	"mltwist/internal/state/interval"
+	"strconv"
+	"strings"
+)
+
+// Interval lists are written "<n> b1 e1 b2 e2 ...".
+
+func (t *tokens) int64() int64 {
+	n, err := strconv.ParseInt(t.next(), 10, 64)
+	if err != nil {
+		panic(parseError("bad int64"))
+	}
+	return n
+}
+
+func (t *tokens) intervals() []interval.Interval[int64] {
+	n := t.int()
+	is := make([]interval.Interval[int64], 0, n)
+	for i := 0; i < n; i++ {
+		b := t.int64()
+		e := t.int64()
+		if b > e {
+			panic(parseError("begin > end"))
+		}
+		is = append(is, interval.New(b, e))
+	}
+	return is
+}
+
+func fmtIntervals[T int64 | uint64](m interval.Map[T]) string {
+	var sb strings.Builder
+	fmt.Fprintf(&sb, "%d", m.Len())
+	for _, i := range m.Intervals() {
+		fmt.Fprintf(&sb, " %d %d", i.Begin(), i.End())
+	}
+	return sb.String()
+}
+
+func init() {
+	register("inew", func(t *tokens) string {
+		return fmtIntervals(interval.NewMap(t.intervals()...))
+	})
+	binary := func(f func(a, b interval.Map[int64]) interval.Map[int64]) opFunc {
+		return func(t *tokens) string {
+			a := interval.NewMap(t.intervals()...)
+			b := interval.NewMap(t.intervals()...)
+			return fmtIntervals(f(a, b))
+		}
+	}
+	register("iunion", binary(interval.MapUnion[int64]))
+	register("icompl", binary(interval.MapComplement[int64]))
+	register("iinter", binary(interval.MapIntersect[int64]))
+}
